@@ -334,7 +334,7 @@ theorem C10_code_wrappers :
       "PushBack -> PushBack(p0)", "Remove -> Remove(p0)", "InsertBefore -> InsertBefore(p0,p1)",
       "InsertAfter -> InsertAfter(p0,p1)", "MoveToFront -> MoveToFront(p0)", "MoveToBack -> MoveToBack(p0)",
       "MoveBefore -> MoveBefore(p0,p1)", "MoveAfter -> MoveAfter(p0,p1)", "PushBackList -> PushBackList(p0)",
-      "PushFrontList -> PushFrontList(p0)", "ForEach -> ForEach(p0)", "ForEachReverse -> ForEachReverse(p0)",
+      "PushFrontList -> PushFrontList(p0)", "snapshot -> ", "ForEach -> ForEach(p0)", "ForEachReverse -> ForEachReverse(p0)",
       "Range -> Range(p0)", "RangeReverse -> RangeReverse(p0)", "Values -> Values()", "Len -> Len()"] ∧
     hive_value_receivers = [] ∧
     hive_constructors = ["func newList", "{", "l := new(list[T])", "l.Init()", "return l", "}",
@@ -384,12 +384,19 @@ theorem C10_skeleton_readers :
   decide
 
 /-- The whole-list pushes: the same shape with the self-push test (`other == t`, then read through the inner
-list) between the lock and the one delegated call. -/
+list) between the lock and the one delegated call — and, **before** the lock is taken, another thread-safe list is
+replaced by a private snapshot of itself (`snapshot`: one read-lock section of the *other* list copying its inner
+list; fix 4f43112): our own lock is never held while another list's lock is requested, and the element-wise loop of
+the inner list never walks a list that somebody else is modifying. -/
 theorem C10_skeleton_pushlists :
     skel_threadSafeList_PushBackList
-      = ["lock t.mutex", "defer unlock t.mutex", "if{", "}if", "call t.list.PushBackList"] ∧
+      = ["if{", "call otherThreadSafeList.snapshot", "}if", "lock t.mutex", "defer unlock t.mutex", "if{", "}if",
+         "call t.list.PushBackList"] ∧
     skel_threadSafeList_PushFrontList
-      = ["lock t.mutex", "defer unlock t.mutex", "if{", "}if", "call t.list.PushFrontList"] := by
+      = ["if{", "call otherThreadSafeList.snapshot", "}if", "lock t.mutex", "defer unlock t.mutex", "if{", "}if",
+         "call t.list.PushFrontList"] ∧
+    skel_threadSafeList_snapshot
+      = ["rlock t.mutex", "defer runlock t.mutex", "call snapshot.PushBackList", "return"] := by
   decide
 
 /-- One mutex, one embedded inner list; `len` is a plain int guarded by that mutex; the element's pointers are
@@ -518,7 +525,8 @@ theorem C10_ts_list_is_sequential (progs : List (List LOp)) (c : Cfg (Sh St LOp 
   exact ⟨h3, h2⟩
 
 /-- The lock each call is modelled under is the lock the wrapper method of the working tree takes (regenerated
-skeletons): write lock for the twelve mutating methods, read lock for the eight observers. -/
+skeletons): write lock for the twelve mutating methods (the whole-list pushes after their lock-free prologue that
+snapshots another thread-safe source), read lock for the eight observers and for `snapshot`. -/
 theorem C10_ts_lock_kinds :
     let w := some (lockWord (listObj.kind (.wr (.init false))))
     let r := some (lockWord (listObj.kind (.len false)))
@@ -530,7 +538,9 @@ theorem C10_ts_lock_kinds :
     Hive.Gen.C10Skel.skel_threadSafeList_InsertBefore.head? = w ∧ Hive.Gen.C10Skel.skel_threadSafeList_InsertAfter.head? = w ∧
     Hive.Gen.C10Skel.skel_threadSafeList_MoveToFront.head? = w ∧ Hive.Gen.C10Skel.skel_threadSafeList_MoveToBack.head? = w ∧
     Hive.Gen.C10Skel.skel_threadSafeList_MoveBefore.head? = w ∧ Hive.Gen.C10Skel.skel_threadSafeList_MoveAfter.head? = w ∧
-    Hive.Gen.C10Skel.skel_threadSafeList_PushBackList.head? = w ∧ Hive.Gen.C10Skel.skel_threadSafeList_PushFrontList.head? = w ∧
+    (Hive.Gen.C10Skel.skel_threadSafeList_PushBackList.drop 3).head? = w ∧
+    (Hive.Gen.C10Skel.skel_threadSafeList_PushFrontList.drop 3).head? = w ∧
+    Hive.Gen.C10Skel.skel_threadSafeList_snapshot.head? = r ∧
     Hive.Gen.C10Skel.skel_threadSafeList_Len.head? = r ∧ Hive.Gen.C10Skel.skel_threadSafeList_Front.head? = r ∧
     Hive.Gen.C10Skel.skel_threadSafeList_Back.head? = r ∧ Hive.Gen.C10Skel.skel_threadSafeList_Values.head? = r ∧
     Hive.Gen.C10Skel.skel_threadSafeList_Range.head? = r ∧ Hive.Gen.C10Skel.skel_threadSafeList_ForEach.head? = r ∧
